@@ -5,6 +5,7 @@ World: a real client stack (both kinds) with the real engine.io client state
 machine, against a real socketio server the simulator can sever from, take
 down and bring back; SimNet decides the outcome of each connection attempt.
 All waiting happens in virtual time."""
+import asyncio
 import socketio
 
 from sim import sio
@@ -113,6 +114,8 @@ def _run(case, cfg, w):
                     rec.count('fault.shutdown_in_attempt')
                     w.call(client.shutdown)
             w.after(0.0, go)
+            return w.choices.chance('app', 1, 2, 'shutdown_first')
+        return False
 
     if w.mode == 'async':
         class RecClient(socketio.AsyncClient):
@@ -121,7 +124,11 @@ def _run(case, cfg, w):
                             headers=dict(k.get('headers') or {}),
                             namespaces=k.get('namespaces'),
                             transports=k.get('transports'))
-                maybe_shutdown_in_attempt(self)
+                if maybe_shutdown_in_attempt(self):
+                    # the application's shutdown() gets to run between the
+                    # end of the back-off wait and the attempt proper
+                    await asyncio.sleep(0)
+                    await asyncio.sleep(0)
                 try:
                     r = await super().connect(*a, **k)
                     rec.add('connect_exit', enter=e['seq'], ok=True)
@@ -137,7 +144,8 @@ def _run(case, cfg, w):
                             headers=dict(k.get('headers') or {}),
                             namespaces=k.get('namespaces'),
                             transports=k.get('transports'))
-                maybe_shutdown_in_attempt(self)
+                if maybe_shutdown_in_attempt(self):
+                    w.kernel.sleep(1e-6)
                 try:
                     r = super().connect(*a, **k)
                     rec.add('connect_exit', enter=e['seq'], ok=True)
